@@ -116,6 +116,10 @@ def check(cx):
                 (e.data.get('lhs_node') or {}).get('adt', '').endswith('ConnUserState') and base_fn(fn) != 'set_nick':
             r5.violation('%s|writes-conn-nick' % base_fn(fn), '%s writes the connection\'s nick directly' % base_fn(fn), loc=cx.loc(e.node))
 
+    # the handlers of R2.4 take the connection's nick as the key of *its* user: true only behind the registration gate
+    r4.instance('handlers run only for connections that completed registration (C03 R3.1)')
+    depends(cx, r4, 'C03', ('R3.1',), 'only registered connections reach the command handlers', only=r'gate')
+
     # ---------------------------------------------------------------- R2.6
     r6 = cx.rule('R2.6', 'own-nick effects outside the gate need `authenticated`', floor=1, kind='required-guard')
     auth = Atom(CONN_AUTH)
